@@ -19,7 +19,7 @@
 """
 import ast
 
-from sa.canon import Canon, f_show, f_equiv, A, f_and, f_not, respell
+from sa.canon import Canon, f_show, f_equiv, A, f_and, f_not, f_or, f_implies, respell
 from sa.ctx import ACT_MOD, ENV_MOD
 from sa.interp import Interp, C
 from sa.model import AnalysisError
@@ -133,6 +133,7 @@ def run(ctx, chk):
     check_flat(ctx, chk)
     check_maps(ctx, chk)
     check_decode(ctx, chk)
+    check_decode_lookup(ctx, chk)
     check_nvec(ctx, chk)
     check_mask(ctx, chk)
     check_order(ctx, chk)
@@ -277,6 +278,86 @@ def check_decode(ctx, chk):
             noop = [pc for pc, tt in objs if tt[0] == "new" and tt[1] == "NoOp"]
             chk.ob("C11.decode", f"type code {code}: exactly one NoOp fallback exit",
                    len(noop) == 1, f"{len(noop)}", ci.module.path, nontrivial=False)
+
+
+def check_decode_lookup(ctx, chk):
+    """the definition used for an exploit / escalation vector is exactly map[service|process][os],
+    and the no-op fallback is taken exactly when that entry does not exist.  Decided with the OS
+    code fixed (0 = None, 1 = first OS) so that the conditions are small formulas; the maps
+    themselves are kept opaque here (their construction is C11.definition)."""
+    import re
+    repo = ctx.repo
+    ci = repo.cls(ACT_MOD, "ParameterisedActionSpace")
+    ga = ci.methods["get_action"]
+    V = ga.params[1]
+    SCN = "self.scenario.scenario_dict"
+    EM = "nasim.scenarios.scenario:Scenario.exploit_map"
+    PM = "nasim.scenarios.scenario:Scenario.privesc_map"
+    for code, cls, mp, key, fields in (
+            (0, "Exploit", f"{EM}(self.scenario)", f"{SCN}['services'][v4]", EXPLOIT_FIELDS),
+            (1, "PrivilegeEscalation", f"{PM}(self.scenario)", f"{SCN}['processes'][v5]",
+             PRIVESC_FIELDS)):
+        for v3, osv in ((0, "None"), (1, f"{SCN}['os'][0]")):
+            ip = Interp(repo, ctx.types, param_types={ga.params[0]: "ParameterisedActionSpace"},
+                        no_inline=(EM, PM))
+            vec = ("tuple", (C(code), ("param", "v1"), ("param", "v2"), C(v3), ("param", "v4"),
+                             ("param", "v5")))
+            s = ip.run(ga, {V: vec})
+            cn = Canon(ip, ctx.layout)
+            what = f"type code {code}, OS code {v3}"
+            noop = [pc for pc, t in s.returns if t[0] == "new" and t[1] == "NoOp"]
+            objs = [(pc, t) for pc, t in s.returns if t[0] == "new" and t[1] == cls]
+            if not noop or not objs or len(noop) + len(objs) != len(s.returns):
+                chk.undecided("C11.decode", f"{what}: no-op exactly when {mp.split(':')[1]}"
+                              "[key][os] is undefined", "exits are not (NoOp | " + cls + "): "
+                              + str([cn.show(t)[:40] for _, t in s.returns]), ci.module.path)
+                continue
+            from sa.canon import f_subst
+            from sa.ctx import sat
+            F = f_or([cn.conj(tuple(c for c in pc if c[0] != "fact")) for pc in noop])
+            # the maps hold definition dicts (C11.definition), never None
+            none_entry = f"None is {mp}[{key}][{osv}]"
+            F = f_subst(F, lambda a: ("false",) if a == none_entry else None)
+            want = f_or([f_not(A(f"{key} in {mp}")), f_not(A(f"{osv} in {mp}[{key}]"))])
+
+            def under(t, pc):
+                """the alternative of a conditional value that is consistent with the path"""
+                if t[0] == "cases":
+                    P = cn.conj(tuple(c for c in pc if c[0] != "fact"))
+                    P = f_subst(P, lambda a: ("false",) if a == none_entry else None)
+                    live = [x for cpc, x in t[1]
+                            if sat(f_and([P, cn.conj(tuple(c for c in cpc if c[0] != "fact"))]))]
+                    live = [x for x in live if x != C(None)] or live
+                    if len({cn.show(x) for x in live}) == 1:
+                        return under(live[0], pc)
+                    return t
+                if t[0] == "phi":
+                    P = cn.conj(tuple(c for c in pc if c[0] != "fact"))
+                    P = f_subst(P, lambda a: ("false",) if a == none_entry else None)
+                    c_ = f_subst(cn.formula(t[1]), lambda a: ("false",) if a == none_entry else None)
+                    if f_implies(P, c_):
+                        return under(t[2], pc)
+                    if f_implies(P, f_not(c_)):
+                        return under(t[3], pc)
+                    return t
+                if t[0] == "sub":
+                    return ("sub", under(t[1], pc), t[2])
+                if t[0] == "kwget":
+                    return ("kwget", under(t[1], pc), t[2], t[3])
+                if t[0] == "mcall" and t[2] == "get":
+                    return ("mcall", under(t[1], pc), t[2], t[3], t[4])
+                return t
+            chk.ob("C11.decode", f"{what}: no-op exactly when {cls} definition [key][os] is missing",
+                   f_equiv(F, want), f"no-op under {f_show(F)[:300]}", ci.module.path)
+            base = re.escape(f"{mp}[{key}][{osv}]")
+            for pc, t in objs:
+                f = fields_of(ip, t)
+                for n in fields:
+                    sv = cn.show(under(f.get(n, C(None)), pc))
+                    okf = re.fullmatch(base + r"(\['" + n + r"'\]|\.get\('" + n + r"', [^()]*\))",
+                                       sv) is not None
+                    chk.ob("C11.decode", f"{what}: {cls}.{n} is {mp.split(':')[1].split('(')[0]}"
+                           f"[key][os]['{n}']", okf, sv[:200], ci.module.path, nontrivial=False)
 
 
 def check_nvec(ctx, chk):
